@@ -53,7 +53,8 @@ TEMPLATES = [
     'PUT({n},{n}),G%', 'PALETTE {n},{n}', 'PALETTE', 'PALETTE USING G%({n})', 'PCOPY {n},{n}', 'X=POINT({n},{n})', 'X=POINT({n})',
     'X=PMAP({n},{n})', 'X=SCREEN({n},{n})', 'X=SCREEN({n},{n},{n})',
     'DEF SEG={n}', 'DEF SEG', 'POKE {n},{n}', 'X=PEEK({n})', 'CLEAR ,{n}', 'CLEAR ,{n},{n}', 'CLEAR {n}', 'CLEAR ,,,{n}', 'BLOAD {s},{n}', 'BSAVE {s},{n},{n}',
-    'X=VARPTR(A$)', 'X$=VARPTR$(X)', 'X=VARPTR(#{n})', 'X=FRE({n})', 'X=FRE({s})', 'X=USR({n})', 'DEF USR{d}={n}', 'CALL X({n})', 'OUT {n},{n}', 'X=INP({n})',
+    'X=VARPTR(A$)', 'X$=VARPTR$(X)', 'DIM G%(5),C(2,2):G%(3)={n}:PLAY "MBT="+VARPTR$(G%(3))', 'C(1,1)={n}:PLAY "L="+VARPTR$(C(1,1))+"C"',
+    'B$(1)={s}:DRAW "X"+VARPTR$(B$(1))', 'DRAW "S="+VARPTR$(G%(1))', 'X=VARPTR(#{n})', 'X=FRE({n})', 'X=FRE({s})', 'X=USR({n})', 'DEF USR{d}={n}', 'CALL X({n})', 'OUT {n},{n}', 'X=INP({n})',
     'WAIT {n},{n},{n}',
     'SOUND {n},{n}', 'SOUND ON', 'SOUND OFF', 'SOUND {n},{n},{n},{n}', 'PLAY {s}', 'PLAY {s},{s},{s}', 'BEEP', 'BEEP ON', 'NOISE {n},{n},{n}', 'X=PLAY({n})',
     'OPEN {s} FOR OUTPUT AS {f}', 'OPEN {s} FOR INPUT AS {f}', 'OPEN {s} FOR APPEND AS {f}', 'OPEN {s} FOR RANDOM AS {f} LEN={n}', 'OPEN {s} AS {f}',
@@ -178,8 +179,10 @@ def gen(rng, tier, prop):
             ops.append({'op': 'api', 'call': rng.choice(['evaluate', 'get', 'set', 'chars', 'pixels', 'convert']),
                         'arg': rng.choice(['1/0', 'A$+', 'FRE(0)', 'B$(99)', '"x"+', ')', 'PEEK(-1)', 'X', 'A$', 'G%(1)', 'Q#']),
                         'value': rng.choice([0, -1, 65536, 1e39, 'x' * 300, 'ab', [1, 2, 3], [[1, 2], [3, 4]], None, True])})
-        elif r < 0.96:
+        elif r < 0.95:
             ops.append({'op': 'restart'})
+        elif r < 0.965:
+            ops.append({'op': 'checkpoint'})
         else:
             ops.append({'op': 'interact', 'lines': [_fill(rng, rng.choice(TEMPLATES)) for _ in range(rng.randint(1, 4))]})
     cfg = {
@@ -383,6 +386,12 @@ def run(case):
                         fs.disarm()
                         del armed[:]
                         d = suspend_resume(d, os.path.join(root, 'chaos.state'))
+                    elif k == 'checkpoint':
+                        # save the session and carry on with the live one
+                        fs.disarm()
+                        del armed[:]
+                        d._guard('suspend', lambda: d.s.suspend(os.path.join(root, 'checkpoint.state')))
+                        run.state('api', 'checkpoint')
                     elif k == 'interact':
                         sink = ByteSink()
                         d._guard('add_pipes', lambda: d.s.add_pipes(output_streams=sink))
